@@ -4,6 +4,8 @@ mod hsys;
 mod plan;
 mod prog;
 mod metah;
+#[cfg(feature = "parallel")]
+mod parseq;
 mod rng;
 mod worldh;
 
@@ -24,6 +26,8 @@ fn main() {
         "exec" => exec_cmd(&args[2..]),
         "world" => world_cmd(&args[2..]),
         "meta" => meta_cmd(&args[2..]),
+        #[cfg(feature = "parallel")]
+        "parseq" => parseq_cmd(&args[2..]),
         _ => {
             eprintln!("usage: shred_verif <plan|...> [options]");
             std::process::exit(2);
@@ -227,5 +231,51 @@ fn meta_cmd(args: &[String]) {
         let max_len = match r.below(4) { 0 => 6, 1 | 2 => 25, _ => 100 };
         let ops = metah::gen_history(&mut r, max_len, gen == "bad");
         emit(&ops, &mut out);
+    }
+}
+
+/// parseq --gen random|conflicts|exh --count N --seed S --shard i/n   |   parseq --cases FILE
+#[cfg(feature = "parallel")]
+fn parseq_cmd(args: &[String]) {
+    let stdout = std::io::stdout();
+    let mut out = std::io::BufWriter::new(stdout.lock());
+    let mut pools = std::collections::HashMap::new();
+    let mut emit = |c: &parseq::Case, out: &mut dyn Write| {
+        writeln!(out, "{} :: {}\t{}", c.head(), parseq::tree_text(&c.tree), parseq::observe(c, &mut pools)).unwrap();
+    };
+    if let Some(f) = arg(args, "--cases") {
+        let rd: Box<dyn BufRead> = Box::new(std::io::BufReader::new(std::fs::File::open(f).expect("cases file")));
+        for line in rd.lines() {
+            let line = line.unwrap();
+            let case = line.split('\t').next().unwrap().trim();
+            if case.is_empty() || case.starts_with('#') { continue; }
+            emit(&parseq::Case::parse(case), &mut out);
+        }
+        return;
+    }
+    let gen = arg(args, "--gen").unwrap_or("random");
+    let count: u64 = arg(args, "--count").map(|s| s.parse().unwrap()).unwrap_or(100);
+    let seed: u64 = arg(args, "--seed").map(|s| s.parse().unwrap()).unwrap_or(1);
+    let (si, sn) = arg(args, "--shard").map(|s| { let (a, b) = s.split_once('/').unwrap(); (a.parse::<u64>().unwrap(), b.parse::<u64>().unwrap()) }).unwrap_or((0, 1));
+    if gen == "exh" {
+        // every shape with <= 4 leaves x a few access patterns (conflict-free and conflicting)
+        let shapes = parseq::exhaustive_shapes(4);
+        for (i, sh) in shapes.iter().enumerate() {
+            if i as u64 % sn != si { continue; }
+            for k in 0..count.max(1) {
+                let pattern = crate::rng::mix(seed, (i as u64) << 8 | k);
+                let mut next = 0;
+                let tree = parseq::label(sh, &mut next, if k == 0 { 0 } else { pattern });
+                let c = parseq::Case { pool: [1usize, 2, 4][(pattern % 3) as usize], mode: if k % 2 == 0 { "overlap".into() } else { "free".into() }, inside: pattern & 8 != 0, tree };
+                emit(&c, &mut out);
+            }
+        }
+        return;
+    }
+    let mut rng = Rng::new(seed.wrapping_mul(9_000_011).wrapping_add(si).wrapping_add(0x9A85));
+    for _ in 0..count {
+        let mut r = rng.fork();
+        let c = parseq::gen_case(&mut r, gen == "conflicts");
+        emit(&c, &mut out);
     }
 }
